@@ -245,17 +245,20 @@ impl KeyValueStorage for Handle {
 
 impl Handle {
     fn put(&self, key: Bytes, value: Bytes) -> Result<(), Error> {
+        // Check after taking the lock, `close` waits for the lock holder
+        let mut writer = self.writer.lock();
         if self.ctx.closed.load() {
             return Err(Error::Closed);
         }
-        self.writer.lock().put(key, value)
+        writer.put(key, value)
     }
 
     fn delete(&self, key: Bytes) -> Result<bool, Error> {
+        let mut writer = self.writer.lock();
         if self.ctx.closed.load() {
             return Err(Error::Closed);
         }
-        self.writer.lock().delete(key)
+        writer.delete(key)
     }
 
     fn get(&self, key: Bytes) -> Result<Option<Bytes>, Error> {
@@ -277,21 +280,26 @@ impl Handle {
     }
 
     fn merge(&self) -> Result<(), Error> {
+        let mut writer = self.writer.lock();
         if self.ctx.closed.load() {
             return Err(Error::Closed);
         }
-        self.writer.lock().merge()
+        writer.merge()
     }
 
     fn sync(&self) -> Result<(), Error> {
+        let mut writer = self.writer.lock();
         if self.ctx.closed.load() {
             return Err(Error::Closed);
         }
-        self.writer.lock().sync()
+        writer.sync()
     }
 
     fn close(&self) {
-        self.ctx.closed.store(true)
+        self.ctx.closed.store(true);
+        // Wait for the operation that is holding the writer, e.g., a merge, so nothing changes
+        // the directory anymore once the storage is closed
+        drop(self.writer.lock());
     }
 }
 
